@@ -7,7 +7,8 @@ for d in /verif/seeded/*/; do
 import json,re,sys
 m=json.load(open('$d/meta.json'))['detected_by']
 r=re.findall(r'(C\d\d) quick:', m)
-print(r[0] if r else '$name'[:3])")
+print(r[0] if r else ('THOROUGH' if re.search(r'C\d\d thorough:', m) else '$name'[:3]))")
+  [ "$id" = "THOROUGH" ] && { echo "$name: caught by a thorough tier only, not replayed here"; continue; }
   git -C /repo apply $d/patch.diff || { echo "$name: PATCH-DOES-NOT-APPLY"; continue; }
   /verif/check $id quick > /tmp/seedrun-$name.out 2>&1; rc=$?
   git -C /repo checkout -- .
